@@ -252,10 +252,68 @@ fn fixed_sizes() -> Vec<Value> {
     out
 }
 
+
+// ------------------------------------------------------------------------------------------------ positions beyond i64
+
+/// Positions in [2^63, 2^64) are JSON integers that do not fit the signed 64-bit type (zone U4: the statement speaks of
+/// integers, the implementation rejects them).  Whatever an implementation does with them, it must not *wrap*: the
+/// outcome is an error or what the statement says about a start / length that large - skip everything, take everything.
+fn check_substr_unsigned(case: &Value, obs: &mut Obs) -> Result<(), String> {
+    let s = case["s"].as_str().unwrap_or("");
+    let start = &case["start"];
+    let len = &case["len"];
+    let rule = if len.is_null() { json!({"substr": [s, start]}) } else { json!({"substr": [s, start, len]}) };
+    let chars: Vec<char> = s.chars().collect();
+    let n = chars.len() as i128;
+    let as_i128 = |v: &Value| -> i128 { v.as_u64().map(|u| u as i128).or_else(|| v.as_i64().map(|i| i as i128)).unwrap_or(0) };
+    let i = as_i128(start);
+    let st = if i >= 0 { i.min(n) } else { (n + i).max(0) };
+    let en = if len.is_null() {
+        n
+    } else {
+        let l = as_i128(len);
+        if l >= 0 { n.min(st + l) } else { (n + l).max(0) }
+    };
+    let clamped: String = if en <= st { String::new() } else { chars[st as usize..en as usize].iter().collect() };
+    match run(&rule, &Value::Null, obs)? {
+        None => obs.nt("rejected (an error)"),
+        Some(v) => {
+            if v != json!(clamped) {
+                return Err(format!("{} gives {} - neither an error nor the clamped slice {:?} (a position of 2^63 or more must not wrap to a negative one)", rule, v, clamped));
+            }
+            obs.nt("clamped");
+        }
+    }
+    Ok(())
+}
+
+fn gen_substr_unsigned() -> BoxedStrategy<Value> {
+    let big = prop_oneof![Just(9223372036854775808u64), Just(18446744073709551615u64), Just(18446744073709551614u64), Just(9223372036854775809u64), (9223372036854775808u64..=18446744073709551615u64)];
+    let small = prop_oneof![(-6i64..=6).prop_map(|i| json!(i)), Just(Value::Null)];
+    prop_oneof![
+        (gen::texts(6), big.clone(), small.clone()).prop_map(|(s, b, l)| json!({"s": s, "start": b, "len": l})),
+        (gen::texts(6), (-6i64..=6), big.clone()).prop_map(|(s, i, b)| json!({"s": s, "start": i, "len": b})),
+        (gen::texts(6), big.clone(), big).prop_map(|(s, a, b)| json!({"s": s, "start": a, "len": b})),
+    ]
+    .boxed()
+}
+
 pub fn property() -> Property {
     Property {
         id: "C16",
         subs: vec![
+            Sub {
+                name: "substr_unsigned",
+                about: "substr with a start or length in [2^63, 2^64) - a JSON integer beyond the signed 64-bit range (zone U4, rejected by the unchanged tree): the outcome must be an error or exactly what the statement says about a position that large (skip everything / take everything); a value that wrapped to a negative position is neither.",
+                nontrivial: "every case.",
+                strategy: Some(gen_substr_unsigned),
+                fixed: None,
+                fixed_exhaustive: false,
+                check: check_substr_unsigned,
+                quick: 20_000,
+                thorough: 1_000_000,
+                small_stack: false,
+            },
             Sub {
                 name: "size_boundaries",
                 about: "strings of exactly 255 / 256 / 257, 4095 / 4096 / 4097 and 65535 / 65536 / 65537 characters (1- to 4-byte characters mixed) through substr (last character by positive and negative start, all but the ends, the whole by negative start, the split law) and cat (string + suffix, n operands, an n-element array), against the reference model: a length kept in a narrower type or a fixed buffer bites exactly at these sizes.",
